@@ -257,6 +257,7 @@ func loadInstr(fr *frame, instr *ssa.UnOp, x value) value {
 	}
 	if s := fr.i.p.sched; s != nil {
 		s.access(fr, addr, false, instr.Pos())
+		s.accessParts(fr, *addr, false, instr.Pos())
 	}
 	return load(mustDeref(instr.X.Type()), addr)
 }
@@ -268,8 +269,12 @@ func storeInstr(fr *frame, instr *ssa.Store) {
 	}
 	if s := fr.i.p.sched; s != nil {
 		s.access(fr, addr, true, instr.Pos())
+		s.accessParts(fr, *addr, true, instr.Pos()) // the fields being overwritten
 	}
 	store(mustDeref(instr.Addr.Type()), addr, fr.get(instr.Val))
+	if s := fr.i.p.sched; s != nil {
+		s.accessParts(fr, *addr, true, instr.Pos()) // the fields of the value now in place
+	}
 }
 
 // binopSym handles binary operators with at least one symbolic operand.
